@@ -158,22 +158,26 @@ def check_pa_lookup(m, f, rule):
         mm = f.get(c.o[1])
         kind[c.ref] = (fld(f, cv), fld(f, mm))
     bad = set()
-    # automaton: (frozenset of key-hash calls executed, frozenset of hash results whose bucket's cst was examined)
-    init = (frozenset(), frozenset())
+    # automaton: (key-hash calls executed, hash results whose bucket's cst was examined, results made stale by
+    # a later adoption of the pending geometry on the same path)
+    init = (frozenset(), frozenset(), frozenset())
 
     def transfer(ins, st, ps):
-        calls, cleaned = st
+        calls, cleaned, stale = st
         if ins.op == 'call':
             if ins.x.get('noreturn'):
                 return None
             if ins.ref in kind:
-                return (calls | {ins.ref}, cleaned)
+                return (calls | {ins.ref}, cleaned, stale - {ins.ref})
         elif ins.op == 'load':
             fl, a = bucket_field(f, ins)
             if fl == 'cst' and a.idx:
                 r = ps.lookup(a.idx[-1])
                 if r in kind:
-                    return (calls, cleaned | {r})
+                    return (calls, cleaned | {r}, stale)
+        elif ins.op == 'store' and fld(f, ins) in ('bucket.count', 'bucket.hash'):
+            # the sweep completed inside this lookup: what was hashed under the old current geometry is stale
+            return (calls, cleaned, stale | {c for c in calls if kind[c] == ('bucket.hash', 'bucket.count')})
         return st
 
     keep = {L.ref for L in rh_loads} | {i.ref for i in f.all_insts() if i.op == 'phi' and i.ty.endswith('*')}
@@ -184,14 +188,16 @@ def check_pa_lookup(m, f, rule):
         return
     npend = nnot = 0
     for ret, ps in res.exits:
-        calls, cleaned = ps.auto
+        calls, cleaned, stale = ps.auto
         rv = ps.lookup(_k(strip_bitcasts(f, ret.o[0]))) if ret.o else None
         g = f.get(rv) if isinstance(rv, str) else None
         idx = None
         if g is not None and g.op == 'getelementptr' and g.x.get('path') and 'idx' in g.x['path'][0]:
             idx = g.x['path'][0]['idx']
         pend = None
-        for L in rh_loads:
+        # the table's state when the lookup was entered: the pending marker as first read on the path
+        entry_loads = [L for L in rh_loads if all(f.dominates(L, M) for M in rh_loads)] or rh_loads
+        for L in entry_loads:
             k = ps.knows(('eq', L.ref, 'null'))
             if k is True:
                 pend = False
@@ -200,6 +206,8 @@ def check_pa_lookup(m, f, rule):
         if pend is None:
             bad.add('an exit path at %s does not distinguish pending from not pending' % ret.loc())
             continue
+        if idx in stale:
+            bad.add('the returned bucket was selected under a geometry that this very call has since replaced (the sweep completed after the key was hashed)')
         kinds = {kind[c] for c in calls}
         if pend:
             npend += 1
@@ -356,6 +364,14 @@ def check_count(m, f, entry, rule):
         rule.ok(entry, 'count bookkeeping matches chain updates on all %d exit state(s)' % len(res.exits), floc(m, f))
 
 
+def strip_ext(f, ref):
+    i = f.get(ref) if isinstance(ref, str) else None
+    while i is not None and i.op in ('zext', 'sext', 'trunc'):
+        ref = i.o[0]
+        i = f.get(ref) if isinstance(ref, str) else None
+    return ref
+
+
 def check_resize_order(m, f, rule):
     bad = []
     comp = [c for c in f.calls('cstl_hash_rehash')]
@@ -374,6 +390,25 @@ def check_resize_order(m, f, rule):
             bad.append('the pending geometry is stored at %s before the clean bit is flipped' % s.loc())
         if not any(f.dominates(c, s) for c in comp):
             bad.append('the pending geometry is overwritten at %s while a previous rehash may still be pending' % s.loc())
+    # every flip must be followed, on every path to a return, by recording a pending function: a flipped clean
+    # bit with no rehash pending makes every bucket look dirty now and clean after the next flip
+    rh_set = [s for s in f.all_insts() if s.op == 'store' and fld(f, s) == 'bucket.rh.hash' and const_int(s.o[0]) != 0]
+    for fl in flips:
+        for r in f.returns():
+            if _reach_avoiding(f, fl, r, rh_set):
+                bad.append('after the clean bit is flipped at %s a return at %s is reachable without a pending rehash having been recorded (e.g. when the '
+                           'bucket allocation then fails): all buckets now look dirty and will look clean after the next resize' % (fl.loc(), r.loc()))
+    # adopting a geometry without sweeping is only sound while no bucket is in use (first resize)
+    pv = Prover(f)
+    stamps_all = any(s.op == 'store' and bucket_field(f, s)[0] == 'cst' and bucket_field(f, s)[1].idx and
+                     (lambda i: i is not None and i.op == 'phi' and any(const_int(o) == 0 for o in i.o))(
+                         f.get(strip_ext(f, bucket_field(f, s)[1].idx[-1]))) for s in f.all_insts())
+    for s in f.all_insts():
+        if s.op == 'store' and fld(f, s) in ('bucket.count', 'bucket.hash') and const_int(s.o[0]) != 0:
+            first = any(op == 'eq' and y == 'null' and is_load_of(f, x, 'bucket.hash') for (op, x, y) in pv.facts_at(s))
+            if not first and not stamps_all:
+                bad.append('the new geometry is adopted at %s without a sweep although the table may already have buckets in use: their clean bits '
+                           'stay stale, and after the next resize dirty buckets look clean (elements become unreachable)' % s.loc())
     # new buckets: n = NULL and cst = table's (after the flip)
     n_init = cst_init = False
     for s in f.all_insts():
